@@ -133,14 +133,29 @@ Qed.
 Lemma normalize_good s : good s -> normalize s = s.
 Proof. intros [_ H]. unfold normalize. rewrite (has_space_blank s H). reflexivity. Qed.
 
-Theorem refs_roundtrip (frags : list str) :
-  Forall good frags -> decode_refs (encode_refs frags) = frags.
+(* a fragment that stays inside the resource holds no '#' *)
+Definition local (s : str) : Prop := good s /\ has_hash s = false.
+
+Lemma drop_qualifiers_local known (l : list str) :
+  Forall local l -> drop_qualifiers known l = l.
 Proof.
-  intros HF. destruct frags as [|f r]; [reflexivity|].
+  induction 1 as [|t r Ht HF IH]; simpl; [reflexivity|].
+  rewrite IH. destruct r as [|n r']; [reflexivity|].
+  inversion HF as [|n' r'' [_ Hn] _]; subst. rewrite Hn.
+  rewrite andb_false_r. reflexivity.
+Qed.
+
+Theorem refs_roundtrip known (frags : list str) :
+  Forall local frags -> decode_refs known (encode_refs frags) = frags.
+Proof.
+  intros HL. assert (HF : Forall good frags).
+  { apply Forall_forall. intros x Hx. rewrite Forall_forall in HL. exact (proj1 (HL x Hx)). }
+  destruct frags as [|f r]; [reflexivity|].
   unfold encode_refs, decode_refs. rewrite (split_join _ HF).
-  remember (f :: r) as l. clear Heql. induction HF as [|s l Hs HF IH]; simpl; [reflexivity|].
-  rewrite (normalize_good s Hs). destruct Hs as [Hne Hns]. rewrite Hne. simpl.
-  rewrite IH. reflexivity.
+  rewrite (drop_qualifiers_local known _ HL).
+  remember (f :: r) as l. clear Heql HL. induction HF as [|s l Hs HF IH]; simpl; [reflexivity|].
+  pose proof (normalize_good s Hs) as Hn. destruct Hs as [Hne Hns]. rewrite Hne. simpl.
+  rewrite Hn, IH. reflexivity.
 Qed.
 
 (* single-valued reference: the attribute text is the fragment; load normalises it *)
@@ -154,6 +169,15 @@ Proof.
   destruct (usable_id s) eqn:E; [|exact Hu].
   unfold usable_id in E. repeat (apply andb_true_iff in E; destruct E as [E ?]).
   split; apply negb_true_iff; assumption.
+Qed.
+
+Theorem ref_fragment_local id uf : local uf -> local (ref_fragment id uf).
+Proof.
+  intros [Hu Hh]. split; [exact (ref_fragment_good id uf Hu)|].
+  unfold ref_fragment. destruct id as [s|]; [|exact Hh].
+  destruct (usable_id s) eqn:E; [|exact Hh].
+  unfold usable_id in E. repeat (apply andb_true_iff in E; destruct E as [E ?]).
+  unfold has_hash. apply negb_true_iff. assumption.
 Qed.
 
 (* an id that is used never reads as a path or as an external reference *)
